@@ -9,7 +9,7 @@ v-1, v, v+1 around every first-appeared version of the database, plus unrecognis
 """
 import random
 
-from harness import common, runner, report
+from harness import common, runner, report, peers
 from checks import rating
 
 
@@ -170,6 +170,7 @@ def run(tier):
     ck.log('%d (peer, banner) cases evaluated by TLC; RecsConsistent holds' % len(cases))
     check_cases(ck, cases, expected)
     sequence_leg(ck)
+    ssh1_leg(ck)
     for c in cases[:400:97]:
         ck.sample({'banner': rating.render_sw(c['sw']), 'kex': c['kex'], 'expected_recs': sorted(
             '%s%s:%s' % ({'del': '-', 'add': '+', 'chg': '!'}[r['action']], r['cat'], r['name']) for r in expected[c['id']]['recs'])[:12]})
@@ -178,6 +179,47 @@ def run(tier):
                       'vendor string and an unrecognised string; expected sets from TLC (SshRating!RecsOf); text (rec) lines and JSON recommendations compared, '
                       'and cross-checked against the notes of the same report. distinct = (product, version, lists)')
     return ck.finish()
+
+
+def ssh1_leg(ck):
+    """SSH-1 peers of a recognised product: a cipher the report rates with a failure and that the database knows in the identified
+    version ('none', known since OpenSSH 1.2.2) is recommended for removal, critically, in the text and in the JSON report; nothing
+    is recommended for removal that the peer does not advertise."""
+    import json
+    scs, meta = [], []
+    for banner in (b'SSH-1.5-OpenSSH_3.4p1', b'SSH-1.99-OpenSSH_2.9p2'):
+        for cm in (0x09, 0x01, 0x49, 0x08, 0x48):
+            cfg = peers.ServerCfg(banner=banner, ssh1={'cmask': cm, 'amask': 0x0c}, wrong_version_text=b'Protocol major versions differ.')
+            for js in (False, True):
+                scs.append({'argv': (['-j'] if js else ['-n']) + ['-1', rating.HOST], 'servers': {(rating.HOST, 22): cfg}})
+                meta.append((banner, cm, js))
+    for (banner, cm, js), sc, r in zip(meta, scs, runner.run_many(scs)):
+        ck.evaluated()
+        if r.get('harness_error') or r.get('hang') or r.get('exit') not in (0, 2, 3):
+            raise common.Machinery('SSH-1 run failed: exit %r %s' % (r.get('exit'), r.get('harness_error') or ''))
+        has_none = bool(cm & 1)
+        replay = {'banner': banner.decode(), 'cipher_mask': cm, 'argv': sc['argv'], 'exit': r['exit'], 'stdout': r['stdout'][-2500:]}
+        if js:
+            doc = json.loads(r['stdout'])
+            dels = [(lvl, x.get('name')) for lvl, acts in (doc.get('recommendations') or {}).items() for x in (acts.get('del') or {}).get('enc', [])]
+            rec_none = ('critical', 'none') in dels
+            stray = [n for _, n in dels if n not in doc.get('enc', [])]
+        else:
+            out = report.strip_ansi(r['stdout'])
+            recs = [l.split()[1] for l in out.split('\n') if l.startswith('(rec) -') and 'enc algorithm to remove' in l]
+            rec_none = '-none' in recs
+            shown = [l.split()[1] for l in out.split('\n') if l.startswith('(enc) ')]
+            stray = [n[1:] for n in recs if n[1:] not in shown]
+        if has_none and not rec_none:
+            ck.violation('ssh1-recs missing view=%s' % ('json' if js else 'text'), 'SSH-1 peer %s offering the cipher none (rated [fail], known since 1.2.2): no removal recommendation for it'
+                         % banner.decode(), replay)
+        elif not has_none and rec_none:
+            ck.violation('ssh1-recs spurious view=%s' % ('json' if js else 'text'), 'SSH-1 peer %s not offering the cipher none: its removal is recommended' % banner.decode(), replay)
+        elif stray:
+            ck.violation('ssh1-recs not-advertised view=%s' % ('json' if js else 'text'), 'SSH-1 peer %s: removal recommended for %r, which it does not advertise' % (banner.decode(), stray), replay)
+        else:
+            ck.cov['traces_validated_against_impl'] += 1
+            ck.nontrivial(('ssh1-recs', banner, cm, js))
 
 
 def sequence_leg(ck):
